@@ -3,7 +3,7 @@
    comparison of the generated index maps with the model's. *)
 From Coq Require Import List Arith Bool ZArith QArith Lia.
 Import ListNotations.
-Require Import Model.C12_Refine Model.C12_Geom Model.C13_Adaptive Proofs.C12_RefineProofs Proofs.C12_GeomProofs Proofs.C12_BoundaryProofs Gen.C12Gen.
+Require Import Model.C12_Refine Model.C12_Geom Model.C13_Adaptive Proofs.C12_RefineProofs Proofs.C12_GeomProofs Proofs.C12_BoundaryProofs Proofs.C12_GlobalProofs Gen.C12Gen.
 Local Open Scope nat_scope.
 
 (* ------------------------------------------------------------------ counts: 2^d children *)
@@ -246,3 +246,13 @@ Qed.
 
 Lemma tet_step_prefix p tb : firstn (length p) (fst (tet_step p tb)) = p.
 Proof. unfold tet_step, uniform_tet. cbn [fst]. apply refine_p_prefix. Qed.
+
+(* ------------------------------------------------------------------ 2-D slot tables: pairs of different local vertices *)
+Lemma tri_rf2_ok : rf2_ok 3 gen_tri_rfacets.
+Proof.
+  intros a Ha. destruct a as [|[|[|a]]]; simpl in Ha; try lia; eexists _, _; (split; [reflexivity|]); repeat split; lia.
+Qed.
+Lemma quad_rf2_ok : rf2_ok 4 gen_quad_rfacets.
+Proof.
+  intros a Ha. destruct a as [|[|[|[|a]]]]; simpl in Ha; try lia; eexists _, _; (split; [reflexivity|]); repeat split; lia.
+Qed.
